@@ -594,12 +594,14 @@ func builtinArrayMap(call FunctionCall) Value {
 	if iterator := call.Argument(0); iterator.isCallable() {
 		length := int64(toUint32(thisObject.get(propertyLength)))
 		callThis := call.Argument(1)
-		values := make([]Value, length)
+		// The result grows with the iteration: length is under the control of the
+		// script (up to 2^32-1) and the callback may end the iteration early.
+		values := make([]Value, 0, min(length, 1<<10))
 		for index := range length {
 			if key := arrayIndexToString(index); thisObject.hasProperty(key) {
-				values[index] = iterator.call(call.runtime, callThis, thisObject.get(key), index, this)
+				values = append(values, iterator.call(call.runtime, callThis, thisObject.get(key), index, this))
 			} else {
-				values[index] = emptyValue
+				values = append(values, emptyValue)
 			}
 		}
 		return objectValue(call.runtime.newArrayOf(values))
